@@ -39,14 +39,19 @@ def run_suite(suite, pid, rng, tier, findings):
         terms.append(suite.to_coq(case, out))
     t_impl = time.time() - t0
     t1 = time.time()
-    bad = C.run_cases(suite.imports, suite.case_type, suite.chk, terms, shard=getattr(suite, "shard", 300),
-                      tag=suite.name)
+    skipped = []
+    if getattr(suite, "classify", False):
+        bad, skipped = C.run_cases_classify(suite.imports, suite.case_type, suite.chk, terms,
+                                            shard=getattr(suite, "shard", 20), tag=suite.name)
+    else:
+        bad = C.run_cases(suite.imports, suite.case_type, suite.chk, terms, shard=getattr(suite, "shard", 300),
+                          tag=suite.name)
     t_coq = time.time() - t1
     res = {
         "suite": suite.name, "evaluations": len(cases),
         "distinct_nontrivial": sum(1 for c, o in zip(cases, outs) if suite.nontrivial(c, o)),
         "disagreements": [], "violations": [], "known": [], "impl_s": round(t_impl, 2), "coq_s": round(t_coq, 2),
-        "samples": [], "stats": {},
+        "samples": [], "stats": {}, "skipped": len(skipped),
     }
     if hasattr(suite, "stats"):
         res["stats"] = suite.stats(cases, outs)
@@ -186,7 +191,7 @@ def check(pid, tier, seed, t0):
             "evaluations": sum(r["evaluations"] for r in results) + extra_info.get("evaluations", 0),
             "distinct_nontrivial": sum(r["distinct_nontrivial"] for r in results) + extra_info.get("distinct_nontrivial", 0),
             "rule": spec.get("rule", "cases are de-duplicated by their JSON form; non-trivial per suite"),
-            "suites": [{k: r[k] for k in ("suite", "evaluations", "distinct_nontrivial", "impl_s", "coq_s", "stats")}
+            "suites": [{k: r[k] for k in ("suite", "evaluations", "distinct_nontrivial", "impl_s", "coq_s", "stats", "skipped")}
                        | {"disagreements": len(r["disagreements"]), "oracle_violations": len(r["violations"]),
                           "known_findings": len(r["known"])} for r in results],
             "samples": [s for r in results for s in r["samples"]][:6] + extra_info.get("samples", []),
